@@ -82,6 +82,7 @@ package ptrify
 //@   decreases srank(originalField.Type), 1
 //@   ensures C01_dropped_iff_chan_or_func: sf == nil <==> (kind(originalField.Type) == Chan || kind(originalField.Type) == Func)
 //@   ensures C01_kept_field_keeps_its_name: sf != nil ==> sf.Name == originalField.Name && sf.Type != nil
+//@   ensures C01_kept_field_gets_the_pointerified_type: sf != nil ==> fieldShape(originalField.Type, sf.Type, tuIface())
 
 //@ func ptrify.Pointerify(original, tmpl) (r)
 //@   props C01
@@ -97,12 +98,23 @@ package ptrify
 //@     invariant C01_output_field_names: forall k int :: {fName(original, k)} 0 <= k && k < i && keeps(original, k) ==>
 //@          newFields[retained(original, k)].Name == fName(original, k)
 //@     invariant forall j int :: {newFields[j].Name} 0 <= j && j < len(newFields) ==> isExported(newFields[j].Name) && newFields[j].Type != nil
+//@     invariant C01_output_field_types: forall k int :: {fType(original, k)} 0 <= k && k < i && keeps(original, k) ==>
+//@          fieldShape(fType(original, k), newFields[retained(original, k)].Type, tuIface())
 //@     invariant C01_output_names_distinct: forall a int, b int :: 0 <= a && a < b && b < len(newFields) ==> newFields[a].Name != newFields[b].Name
 //@     invariant C01_output_names_differ_from_unvisited: forall a int, k int :: 0 <= a && a < len(newFields) && i <= k && k < numField(original) ==>
 //@          newFields[a].Name != fName(original, k)
 //@   ensures C01_result_field_count: r != nil && kind(r) == Struct && numField(r) == retained(original, numField(original))
 //@   ensures C01_result_field_names: forall k int :: {fName(original, k)} 0 <= k && k < numField(original) && keeps(original, k) ==>
 //@        fName(r, retained(original, k)) == fName(original, k)
+//@   ensures C01_result_is_the_pointerified_type_all_the_way_down: deepShape(original, r, tuIface())
+
+//@ lemma fieldsShape_intro(s RType, p RType, n int, tu RType)
+//@   props C01
+//@   induct n
+//@   trigger fieldsShape(s, p, n, tu)
+//@   requires n >= 0
+//@   requires forall k int :: {fType(s, k)} 0 <= k && k < n && keeps(s, k) ==> fName(p, retained(s, k)) == fName(s, k) && fieldShape(fType(s, k), fType(p, retained(s, k)), tu)
+//@   ensures fieldsShape(s, p, n, tu)
 
 // every output position below retained(t, n) is the image of exactly one retained input field
 //@ fun keptIdx(t RType, j int) int
